@@ -102,6 +102,12 @@ const CTRL_Z: u8 = 0x1A; // indicates end of file
 const FONT_INDICATOR: u32 = 0xFF00_AA55;
 
 impl TheDrawFont {
+    /// read-only view of the glyph table (verification hook)
+    #[cfg(icy_engine_verif)]
+    pub fn verif_glyphs(&self) -> &Vec<Option<FontGlyph>> {
+        &self.char_table
+    }
+
     pub fn new(name: impl Into<String>, font_type: FontType, spaces: i32) -> Self {
         Self {
             name: name.into(),
